@@ -24,6 +24,7 @@ META = {
 }
 
 THEOREMS = [
+    "C11_tables",
     "C11_clean",
     "C11_clean_plain",
     "C11_clean_high",
